@@ -178,9 +178,10 @@ func (fs *Filespace) Writer(destPath string) (writer filesystem.Writer, err erro
 		if file, ok = node.(*File); !ok {
 			return nil, goaterr.Errorf("Node %s must be a file", destPath)
 		}
-		file.time = time.Now()
 	}
 	handler := NewFileHandler(file)
+	// the handler holds the file's data lock from here on
+	file.time = time.Now()
 	file.data = []byte{}
 	return handler, nil
 }
@@ -231,7 +232,6 @@ func (fs *Filespace) WriteFile(destPath string, data []byte, filemode os.FileMod
 	if file, ok = node.(*File); !ok {
 		return goaterr.Errorf("Node %s must be a file", destPath)
 	}
-	file.time = time.Now()
 	file.setData(data)
 	return nil
 }
